@@ -474,12 +474,16 @@ def _relay(ctx, verdicts, payloads):
                 drift.setdefault(d, []).append(cid)
     for d, cids in sorted(drift.items()):
         ctx.note(f"model_drift {d}: {len(set(cids))} case(s), first case {min(cids)}")
+    by_clause = ctx.extra.setdefault("failing_cases_by_clause", {})
+    for cid, vjs in verdicts.items():
+        for c in {c for vj in vjs for c in list(vj.get("fails", [])) + list(vj.get("kf", []))}:
+            by_clause[c] = by_clause.get(c, 0) + 1
     ctx.judge(verdicts, payloads)
 
 
 def run(ctx):
     cfg = ctx.pick("MC_Myosin.cfg", "MC_Myosin_thorough.cfg")
-    res = ctx.mc("MC_Myosin", cfg, timeout=3000)
+    res = ctx.mc("MC_Myosin", cfg, timeout=3000, heap="4g")
     jobs, payloads = [], {}
     case = 0
     clean = 0
@@ -493,7 +497,7 @@ def run(ctx):
         clean += not (leaf["kf_key"] or leaf["kf_float"])
     n_mc = len(jobs)
     results = core.parallel_map(_mc_job, jobs, chunksize=2)
-    nrand = ctx.pick(64, 1600)
+    nrand = ctx.pick(48, 1400)
     rjobs = []
     for i in range(nrand):
         case += 1
@@ -502,7 +506,7 @@ def run(ctx):
         payloads[case] = inst
         ctx.add_case(inst, nontrivial=_nontrivial(inst))
     results += core.parallel_map(_random_job, rjobs, chunksize=1)
-    verdicts = ctx.validate("Trace_Myosin", results, timeout=3000)
+    verdicts = ctx.validate("Trace_Myosin", results, timeout=3000, heap="3g")
     _relay(ctx, verdicts, payloads)
     ctx.rule = ("TLC enumerates interface-list configurations (distinct, repeated object, equal-valued objects, equal "
                 "coordinates with other ids, ids unrelated to position) x placements (integer / half-integer rescale and "
@@ -530,5 +534,5 @@ def replay(ctx, payload):
     ctx.add_case(inst)
     ctx.add_case({"replay": True})
     c, evs = _random_job((1, inst)) if inst["kind"] != "mc" else _mc_job((1, inst))
-    v = ctx.validate("Trace_Myosin", [(c, evs)])
+    v = ctx.validate("Trace_Myosin", [(c, evs)], heap="3g")
     _relay(ctx, v, {c: inst})
